@@ -607,7 +607,7 @@ pub fn check(engine: &dyn Engine, prop: &str, tier: &str) -> i32 {
     let mut unconfirmed = 0usize;
     for (sig, f) in fresh.iter().take(12) {
         let path = format!("{root}/replays/{prop}-{:08x}-{}.json", fnv1a(sig) as u32, f.case.seed);
-        let rf = ReplayFile { case: f.case.clone(), violation: f.violation.clone(), minimised: f.minimised, original_seed: f.case.seed };
+        let rf = ReplayFile { case: f.case.clone(), violation: f.violation.clone(), minimised: f.minimised, original_seed: f.case.seed, build: std::env::var("VERIF_BUILD_TAG").unwrap_or_default() };
         let _ = std::fs::write(&path, serde_json::to_string_pretty(&rf).unwrap());
         // confirm in a fresh process
         let st = Command::new(&exe).args(["replay", &path]).stdout(Stdio::piped()).stderr(Stdio::null()).output();
